@@ -81,7 +81,9 @@ func malformedAllStream(cfg *Config) *hx.Stats {
 	obsEncodePanic := 0
 	accepted := 0
 	obsHuge := 0
-	try := func(id atree.SlabID, b []byte, what string) {
+	var tryT func(id atree.SlabID, b []byte, what string, limit time.Duration)
+	try := func(id atree.SlabID, b []byte, what string) { tryT(id, b, what, 2*time.Second) }
+	tryT = func(id atree.SlabID, b []byte, what string, limit time.Duration) {
 		done := make(chan string, 1)
 		go func() {
 			defer func() {
@@ -128,8 +130,14 @@ func malformedAllStream(cfg *Config) *hx.Stats {
 			if r != "" {
 				viol(fmt.Sprintf("%s of register %s (%d bytes: %x): %s", what, hx.IDStr(id), len(b), b, r))
 			}
-		case <-time.After(2 * time.Second):
-			viol(fmt.Sprintf("%s of register %s: decoding does not return within 2 s (%x)", what, hx.IDStr(id), b))
+		case <-time.After(limit):
+			if limit < 60*time.Second {
+				// a loaded machine can starve the goroutine for seconds: only a call that does not
+				// return within a minute either is reported as a hang
+				tryT(id, b, what, 60*time.Second)
+				return
+			}
+			viol(fmt.Sprintf("%s of register %s: decoding does not return within 60 s (%x)", what, hx.IDStr(id), b))
 		}
 		st.Ops++
 	}
